@@ -152,6 +152,10 @@ def run_c10(tier):
             recs = jsonl(run_bin(variant, "gr_replay", ["table", tpath, ncpu()]))
             for r in recs:
                 r["variant"] = variant
+                if r["kind"] == "finding" and r["prop"] == "*":
+                    r["prop"] = prop
+                if r["kind"] == "summary" and r.get("hang"):
+                    r.update({"group_cases": 0, "egraph_cases": 0})
                 (summaries if r["kind"] == "summary" else findings).append(r)
     # random generator sets on 5 and 6 points: recorded from the real code, validated by TLC
     cases = 40 if tier == "quick" else 300
@@ -231,8 +235,8 @@ PARSE_SIG = {"f": {"nsl": 2, "bind": []}, "v": {"nsl": 1, "bind": []}, "c": {"ns
              "g": {"nsl": 0, "bind": [0]}, "h": {"nsl": 0, "bind": [0, 0]}, "lam": {"nsl": 0, "bind": [1]},
              "let": {"nsl": 0, "bind": [1, 0]}}
 PARSE_TOKS = [["lp", ""], ["rp", ""], ["lb", ""], ["rb", ""], ["ce", ""], ["id", "f"], ["id", "g"], ["id", "c"],
-              ["id", "lam"], ["id", "7"], ["pv", "x"], ["sl", "1"]]
-PARSE_CHARS = ["(", ")", "[", "]", ":", "=", "?", "$", " ", "g", "c", "1"]
+              ["id", "lam"], ["id", "7"], ["pv", "U"], ["sl", "1"]]
+PARSE_CHARS = ["(", ")", "[", "]", ":", "=", "?", "$", " ", "g", "U", "1"]   # U = a multi-byte character in the real text
 
 
 def run_c18(tier):
